@@ -10,7 +10,7 @@ EXTENDS T1
 CONSTANTS Vals, K, Styles
 ValsT == {-40, -1, 0, 1, 2, 40}
 ShapesQ == {<<1, 1>>, <<2, 2>>, <<3, 5>>, <<4, 4>>, <<2, 9>>}
-ShapesT == {<<1, 1>>, <<1, 4>>, <<2, 2>>, <<3, 5>>, <<4, 4>>, <<2, 9>>, <<5, 8>>, <<8, 8>>}
+ShapesT == {<<1, 1>>, <<1, 4>>, <<2, 2>>, <<3, 5>>, <<4, 4>>, <<2, 9>>, <<5, 8>>}
 CONSTANT Shapes
 VARIABLES phase, G, src
 vars == <<phase, G, src>>
